@@ -1027,6 +1027,10 @@ class Fn:
                         st2[('v', t['dest']['l'])] = 'Continue'
                     elif arg_var in ('None', 'Err'):
                         st2[('v', t['dest']['l'])] = 'Break'
+                # variant-preserving combinators: the result is Some/Ok exactly when the receiver is
+                if arg_var is not None and ((('result::Result' in rn) and rn.split('::')[-1] in ('map_err', 'map', 'inspect', 'inspect_err', 'as_ref', 'as_mut', 'copied', 'cloned')) or
+                                            (('option::Option' in rn) and rn.split('::')[-1] in ('map', 'inspect', 'as_ref', 'as_mut', 'copied', 'cloned', 'as_deref', 'as_deref_mut'))):
+                    st2[('v', t['dest']['l'])] = arg_var
                 if rn.endswith('std::ops::FromResidual>::from_residual'):
                     if 'option::Option' in rn:
                         st2[('v', t['dest']['l'])] = 'None'
@@ -1451,6 +1455,26 @@ class Program:
                         # that module has disappeared
                         ks = [k for k in bf if k not in cur_paths and bf[k] == sty and k.rsplit('::', 1)[0] == n.rsplit('::', 1)[0]
                               and base_all.get('kinds', {}).get(k, 'static') == 'static' and _is_static_key(base_all, k)]
+                    if not ks:
+                        # moved to a sibling module and renamed (`time::sleep::SLEEP_ID` -> `time::driver::NEXT_TIMER_ID`, possibly nested
+                        # in a function there): same type, and the only static of that type that left / entered this family of modules
+                        def fam(key):
+                            ps = key.split('::')
+                            return '::'.join(ps[:2]) if len(ps) > 2 else ps[0]
+                        gone = [k for k in bf if k not in cur_paths and bf[k] == sty and fam(k) == fam(n) and _is_static_key(base_all, k)]
+                        fresh = [strip_generics(y['path']) for d2 in loaded for y in d2['statics'] if strip_generics(y['path']) not in bf and '__CALLSITE' not in y['path']
+                                 and fam(strip_generics(y['path'])) == fam(n) and
+                                 ([next((f_['body']['locals'][0]['ty'] for f_ in d2['fns'] if f_.get('kind') == 'static' and strip_generics(f_['path']) == strip_generics(y['path'])), y['ty'])] == sty)]
+                        if len(gone) == 1 and len(set(fresh)) == 1:
+                            ks = gone
+                    if not ks:
+                        # renamed and re-typed at once (`SIMTIME: (AtomicU64, AtomicU32)` -> `SIM_CLOCK: SimClock`): the only static that
+                        # disappeared from this module and the only new one in it
+                        gone = [k for k in bf if k not in cur_paths and k.rsplit('::', 1)[0] == n.rsplit('::', 1)[0] and _is_static_key(base_all, k) and len(bf[k]) == 1]
+                        fresh = [strip_generics(y['path']) for d2 in loaded for y in d2['statics'] if strip_generics(y['path']) not in bf and '__CALLSITE' not in y['path']
+                                 and strip_generics(y['path']).rsplit('::', 1)[0] == n.rsplit('::', 1)[0]]
+                        if len(gone) == 1 and len(set(fresh)) == 1:
+                            ks = gone
                     if len(ks) == 1:
                         sren[n] = ks[0]
             if sren and len(set(sren.values())) == len(sren):
@@ -2554,5 +2578,56 @@ def _inline_site(f, b, g):
     for i, a in enumerate(call['args']):
         stm.append({'k': 'assign', 'p': {'l': loff + 1 + i, 'pr': []}, 'r': {'k': 'use', 'o': copy.deepcopy(a)}, 'ln': ln, 'exp': 'inlined-arg'})
     f.blocks[b] = {'s': stm, 't': {'k': 'goto', 't': boff, 'ln': ln, 'inlined': g.key}, 'cleanup': f.blocks[b]['cleanup']}
+    # a mode handed in as a constant (`self.resolve(OnPanic::Report)`, `helper(true)`): the spliced copy is the helper specialised for
+    # that mode — its tests of the parameter are decided
+    for i, a in enumerate(call['args']):
+        known = None      # ('variant', name) | ('int', n)
+        if a.get('k') == 'const' and isinstance(a.get('int'), int):
+            known = ('int', a['int'])
+        elif a.get('k') in ('move', 'copy') and not a['p']['pr']:
+            src = [st for st in f.blocks[b]['s'] if st['k'] == 'assign' and st['p']['l'] == a['p']['l'] and not st['p']['pr']]
+            if src and not any(st is not src[-1] and st['k'] == 'assign' and st['p']['l'] == a['p']['l'] for st in f.blocks[b]['s'][f.blocks[b]['s'].index(src[-1]):-len(call['args']) or None]):
+                r = src[-1]['r']
+                if r['k'] == 'agg' and r.get('ak') == 'adt' and not r.get('ops') and r.get('variant'):
+                    known = ('variant', r['variant'])
+                elif r['k'] == 'use' and r['o'].get('k') == 'const' and isinstance(r['o'].get('int'), int):
+                    known = ('int', r['o']['int'])
+        if known is None:
+            continue
+        pl = 1 + i
+        def touches(x):
+            # the parameter is written, borrowed mutably or moved somewhere else in the helper
+            if isinstance(x, dict):
+                if x.get('k') == 'assign' and x['p']['l'] == pl:
+                    return True
+                if x.get('k') == 'ref' and x.get('mut') and x['p']['l'] == pl:
+                    return True
+                return any(touches(v) for v in x.values() if isinstance(v, (dict, list)))
+            if isinstance(x, list):
+                return any(touches(v) for v in x)
+            return False
+        if touches([gb['s'] for gb in g.blocks]) or any(gb['t']['k'] == 'call' and gb['t']['dest']['l'] == pl for gb in g.blocks):
+            continue
+        for k, gb in enumerate(g.blocks):
+            nb = f.blocks[boff + k]
+            t = nb['t']
+            if t['k'] != 'switch' or t['d'].get('k') not in ('move', 'copy') or t['d']['p']['pr']:
+                continue
+            val = None
+            dl = t['d']['p']['l']
+            if dl == loff + pl and known[0] == 'int':
+                val = known[1]
+            else:
+                defs = [st for st in nb['s'] if st['k'] == 'assign' and st['p']['l'] == dl and not st['p']['pr']]
+                if defs:
+                    r = defs[-1]['r']
+                    if r['k'] == 'discr' and r['p']['l'] == loff + pl and not r['p']['pr'] and known[0] == 'variant':
+                        val = next((n for n, nm in r.get('variants', []) if nm == known[1]), None)
+                    elif r['k'] == 'use' and r['o'].get('k') in ('move', 'copy') and r['o']['p']['l'] == loff + pl and not r['o']['p']['pr'] and known[0] == 'int':
+                        val = known[1]
+            if val is None:
+                continue
+            tgt = next((tb for v, tb in t['vals'] if v == val), t['otherwise'])
+            nb['t'] = {'k': 'goto', 't': tgt, 'ln': t.get('ln'), 'specialised': known[1]}
     for d in g.dbg:
         f.dbg.append(_rename(d, loff, boff, poff))
